@@ -12,13 +12,17 @@ def _load(module, fn):
 
 
 def parse_call(expr, glb):
-    """'f(1, b=[2]) with ...' -> (args, kwargs) evaluated in the harness module's namespace."""
+    """'f(1, b=[2])' -> (args, kwargs) evaluated in the harness module's namespace.
+    The whole call is evaluated at once so that CrossHair's aliasing notation f(v1:=[], v1) keeps its sharing."""
     expr = expr.strip()
     node = ast.parse(expr, mode="eval").body
     if not isinstance(node, ast.Call):
         raise ValueError("not a call: " + expr)
-    ev = lambda n: eval(compile(ast.Expression(n), "<cex>", "eval"), dict(glb))
-    return [ev(a) for a in node.args], {k.arg: ev(k.value) for k in node.keywords}
+    node.func = ast.Name(id="__vt_capture__", ctx=ast.Load())
+    ns = dict(glb)
+    ns["__vt_capture__"] = lambda *a, **k: (list(a), k)
+    tree = ast.fix_missing_locations(ast.Expression(node))
+    return eval(compile(tree, "<cex>", "eval"), ns)
 
 
 def split_message(msg):
